@@ -1361,6 +1361,15 @@ class BuiltinMixin:
                 out.append((s, r))
         return out
 
+    def m_HDict_clear(self, st, ref, args, kwargs):
+        """d.clear(): no key is present afterwards (concrete and symbolic part)"""
+        h = st.deref(ref)
+        h.items = {}
+        h.present = None
+        h.val = None
+        st.log.append(("delitem", ref.addr, "*"))
+        return [(st, NONE)]
+
     def m_HDict_pop(self, st, ref, args, kwargs):
         """d.pop(key[, default]) on a dict with concrete keys"""
         h = st.deref(ref)
